@@ -34,12 +34,14 @@ def Arg.extractE (a : Arg) : Elem → Except BErr Tok
   | .int i =>
     match a.kind with
     | .int => .ok (.i i)
+    | .pos => if i < 1 then .error (.lit .syntax) else .ok (.i i)
     | .u64 => .ok (.n (asUsize i))
     | .flt => .error (.lit (a.onErr.getD .notFloat))
     | _ => .error (.lit .expectedBulk)
   | .other =>
     match a.kind with
     | .int => .error (.lit (a.onErr.getD .notInt))
+    | .pos => .error (.lit (a.onErr.getD .notInt))
     | .u64 => .error (.lit (a.onErr.getD .expectedUnsigned))
     | .flt => .error (.lit (a.onErr.getD .notFloat))
     | _ => .error (.lit .expectedBulk)
